@@ -333,6 +333,15 @@ def main(argv=None):
             print("%s property=%s obligation %s of the locked baseline was not generated" % (tag, prop, n))
         if status == 0:
             print("LOST-PROOF property=%s: held at the bounded level only (%d run-time contract checks on the real code, no violation)" % (prop, conc_runs))
+    # scenarios whose per-shape proof is claimed to hold for every shape because the code is element-wise: the claim is checked
+    claims = getattr(mod, "ALL_SHAPES_BY_ELEMENTWISE", ())
+    elementwise_claims = {}
+    for scn_name in claims:
+        ops = sorted(oplogs.get(scn_name, ()))
+        bad = [o for o in ops if o != "elementwise"]
+        elementwise_claims[scn_name] = {"operation_classes_seen": ops, "holds": not bad and scn_name in oplogs}
+        if bad and scn_name in oplogs:
+            print("NOTE property=%s scenario=%s: operations %s couple array elements; the per-element proof is claimed for the enumerated shapes only, not for all shapes" % (prop, scn_name, bad))
     n_obl = len(inst)
     n_dis = sum(1 for r in inst if r["status"] == "proved")
     if status == 0 and n_obl == 0:
@@ -368,6 +377,7 @@ def main(argv=None):
                 "rule": "bounded stand-in (never counted as proved): the same scenario run on the real, unshadowed code with random concrete inputs per case; distinct = distinct (case, input) tuples that satisfied the pre-condition",
                 "samples": (samples[:2] + ([conc_sample] if conc_sample else [])) or [{"note": "no non-trivial sample"}],
                 "numpy_ops_seen_per_scenario": {k: sorted(v) for k, v in oplogs.items()},
+                "all_shapes_by_elementwise_argument": elementwise_claims,
                 "known_findings_hit": known_hit, "fixed_defects": [{"commit": c, "what": w} for c, w in fixed],
                 "undecided": [list(u) for u in undecided][:20], "unknown_obligations": [r["name"] + "@" + r["case"] for r in unknown][:20],
                 "exit_status": status, "lost_proof": lost_proof,
